@@ -84,6 +84,7 @@ func v06eSortOp(sched int) {
 	if sched > 0 {
 		// schedules are the quantifier: concrete keys, fewer configurations
 		verif.Schedules(sched)
+		verif.Races(true)
 		c := v06eSchedCfg[verif.Choose("cfg", len(v06eSchedCfg))]
 		desc, nullsFirst, reverse = c[0], c[1], c[2]
 		data = verif.Choose("data", len(v06eSched))
